@@ -1502,6 +1502,17 @@ def listing_rules(fb, R, M):
         R.broken('no RelationsManager method forwarding to the relations listing (for_each_incomplete_relation) instantiated')
 
 
+def _stash_copy_feeds_push(fn, push, initlist):
+    """The element pushed carries the handle of `m_stash.add_item(<first parameter>)` (inline or through a named local)."""
+    adds = calls(fn, STASH + '::add_item')
+    if len(adds) != 1 or fn.root_var(adds[0]['args'][0]) != param_root(fn, 0):
+        return False
+    if adds[0]['id'] in fn.subtree(push['id']):
+        return True
+    return any((origin(fn, a) or {}).get('id') == adds[0]['id'] for a in initlist.get('args', []) if a is not None) and \
+        fn.elem_dominates(adds[0]['id'], push['id'])
+
+
 def counter_rules(fb, R, M):
     acc = RDB + '::members'
     erec = fb.record(RDB + '::element')
@@ -1555,7 +1566,7 @@ def counter_rules(fb, R, M):
             cidx = next((f['idx'] for f in erec.fields if f['q'] == cfield), None)
             if not il or cidx is None or len(il[0].get('args', [])) <= cidx or fn.const_value(il[0]['args'][cidx]) != 0:
                 ok, msg = False, 'the member counter of a new relation must start at 0 (track() increments it once per tracked member)'
-            elif not subtree_calls(fn, push[0]['id'], STASH + '::add_item') or fn.root_var(subtree_calls(fn, push[0]['id'], STASH + '::add_item')[0]['args'][0]) != param_root(fn, 0):
+            elif not _stash_copy_feeds_push(fn, push[0], il[0]):
                 ok, msg = False, 'the relation parameter is not copied into the stash'
         R.check(ok, 'C1-member-counter-ops', fn.q + '#counter-starts-at-0', fn.site, msg)
         rets = [n for n in fn.all_nodes() if n.get('k') == 'return' and 'sub' in n]
@@ -1564,11 +1575,17 @@ def counter_rules(fb, R, M):
             hs = [fn.nodes[x] for x in fn.subtree(rets[0]['sub']) if fn.nodes[x].get('k') == 'construct' and fn.nodes[x].get('q') == RH + '::(ctor)' and len(fn.nodes[x].get('args', [])) == 2]
             ok = bool(hs)
             if ok:
-                p = fn.sn(hs[0]['args'][1])
-                ok = p is not None and p.get('k') == 'binop' and p['op'] == '-' and fn.const_value(p['rhs']) == 1 and (fn.sn(p['lhs']) or {}).get('q') == 'std::vector::size' \
-                    and fn.root_var(p['lhs']) == fn.root_var(push[0]['recv']) and fn.elem_dominates(push[0]['id'], p['id'])
+                # the position of the new element: size() - 1 evaluated after the push, or size() evaluated before it
+                p = origin(fn, hs[0]['args'][1])
+                vec = fn.root_var(push[0]['recv'])
+                after = p is not None and p.get('k') == 'binop' and p['op'] == '-' and fn.const_value(p['rhs']) == 1 \
+                    and (origin(fn, p['lhs']) or {}).get('q') == 'std::vector::size' and fn.root_var((origin(fn, p['lhs']) or {}).get('recv')) == vec \
+                    and fn.elem_dominates(push[0]['id'], origin(fn, p['lhs'])['id'])
+                before = p is not None and p.get('k') == 'call' and p.get('q') == 'std::vector::size' and fn.root_var(p.get('recv')) == vec \
+                    and fn.elem_dominates(p['id'], push[0]['id'])
+                ok = after or before
         R.check(ok, 'C1-member-counter-ops', fn.q + '#returns-the-handle-of-the-element-just-pushed', fn.site,
-                'add() must return {this, m_elements.size() - 1} evaluated after the push_back')
+                'add() must return the handle of the element just pushed: {this, size() - 1} evaluated after the push_back, or size() read before it')
     if not fb.fns(RDB + '::add'):
         R.broken('%s::add not found' % RDB)
 
